@@ -12,29 +12,30 @@
      that proposal's PrevIndex to its index i; C02_links_ordered - PrevIndex < i < NextIndex in every reachable world;
      hence C02_cursors_monotone - Committed.Index and Applied.Index never decrease along any run.
    * "sent to the device in that same order, never before every earlier transaction on the target finished applying":
-     C02_applied_moves_by_successor (Applied.Index moves only to i, by proposal (t,i): applying from PrevIndex,
-     aborting from PrevIndex, or - Apply phase FAILED - passing a failure already recorded, from a smaller value; that
-     this smaller value is again PrevIndex needs the chain invariant, see PARTIAL) and C02_sent_in_order - a request for proposal (t,i) is appended to the device log only by the
-     reconcileApply of (t,i), in its Apply phase, when Applied.Index < i and Applied.Index = its PrevIndex (or it has no
+     C02_applied_moves_by_successor (from ANY world Applied.Index moves only to i, by proposal (t,i): applying from
+     PrevIndex, aborting from PrevIndex, or - Apply phase FAILED - passing a failure already recorded, from a smaller
+     value; in reachable worlds that value is again PrevIndex, C02_applied_moves_from_prev) and C02_sent_in_order - a
+     request for proposal (t,i) is appended to the device log only by the reconcileApply of (t,i), in its Apply phase, when Applied.Index < i and Applied.Index = its PrevIndex (or it has no
      predecessor), outside SYNCHRONIZING, with applied term >= term, over the master's live connection.  Re-sends of
      the same proposal (retry after a transient error or a crash before the status write) satisfy the same guard.
-   * "never sent a change that has not been merged": C02_sent_only_after_commit_phase (full: the sender's Commit phase is
-     done and it is not aborting; uses the phase-order invariant of Proofs/P2_Order.v) and
-     C02_never_sent_before_merged_partial (Committed.Index >= i).
-   PARTIAL: C02_never_sent_before_merged_partial and C02_applied_le_committed_partial assume the named predicate
-     [commit_guard] in every reachable world (a proposal in Commit-Doing sees Committed.Index = PrevIndex or >= its
-     index).  reconcileCommit marks a proposal COMMITTED WITHOUT merging whenever Committed.Index <> PrevIndex, so the
-     guard is exactly what makes that branch harmless; from it the proofs derive "Commit done => merged" (the merge
-     effects precede the status write in the effect list) and Applied.Index <= Committed.Index.  Missing lemma: the chain
-     invariant - the initialised proposals of a target form ONE PrevIndex/NextIndex chain (no two share a PrevIndex;
-     PrevIndex = 0 only for the first), whose proof needs "at most one transaction links proposals at a time" (the
-     creation guard is stated by rec_tx_createprop in Proofs/P2_Cursor.v); not finished.  For the same reason
-     Committed.Index <= Proposed.Index and "PrevIndex = 0 only for the first proposal" (which would remove the
-     "or PrevIndex = 0" alternatives below) are not proved; the p2 monitors check them at run time.
+   * "never sent a change that has not been merged": C02_never_sent_before_merged - full strength, every reachable
+     world: the sender's Commit phase is done, it is not aborting, and Committed.Index >= its index.  reconcileCommit marks
+     a proposal COMMITTED WITHOUT merging whenever Committed.Index <> PrevIndex; that branch is harmless because of the
+     chain invariant proved in Proofs/P2_CursorLink.v / P2_CursorChainInv.v / P2_CursorGuard.v and stated here:
+     C02_open_is_last (transactions initialise in index order, so of two proposals of a target the older is INITIALIZED:
+     at most one proposal per target is linking, and it is the last), C02_unique_prev (no two INITIALIZED proposals of a
+     target share a PrevIndex), C02_commit_guard (a proposal in Commit-Doing sees Committed.Index = its PrevIndex or its
+     own index already merged), C02_cursors_ordered (Applied.Index <= Committed.Index <= Proposed.Index).
+   * with the chain invariant the single-step facts sharpen: C02_sent_from_prev (a change is sent when Applied.Index is
+     EXACTLY the PrevIndex of its proposal) and C02_applied_moves_from_prev (Applied.Index moves from exactly PrevIndex,
+     also when it passes a recorded apply failure).
+   Nothing is partial.  Not covered by these theorems: the order in which the configuration controller re-pushes the
+   applied values after a mastership change (a Go map order; property C10 covers when it happens, C03/C05 its content).
    Examples that the hypotheses are satisfiable on the executable instance: Proofs/P2_CursorEx.v. *)
 From stdpp Require Import gmap.
 From Coq Require Import NArith.
-From OC Require Import Model.Proto2 Proofs.P2Base Proofs.P2Phases Proofs.P2_Cursor Proofs.P2_CursorInv Proofs.P2_CursorChain.
+From OC Require Import Model.Proto2 Proofs.P2Base Proofs.P2Phases Proofs.P2_Cursor Proofs.P2_CursorInv Proofs.P2_CursorChain
+     Proofs.P2_CursorLink Proofs.P2_CursorChainInv Proofs.P2_CursorGuard.
 Open Scope N_scope.
 
 Section C02.
@@ -111,31 +112,47 @@ Section C02.
       p_apply P = Some Doing /\ p_commit P = Some Done /\ p_abort P = None.
   Proof. exact (inst sent_only_after_commit_phase). Qed.
 
-  (* PARTIAL (see the header).  [commit_guard w] (Proofs/P2_CursorChain.v) says: for every proposal (t,i) of w that is
-     in Commit-Doing (no Abort, no Apply phase) and every configuration C of t, Committed.Index C = PrevIndex or
-     i <= Committed.Index C.  If it holds in every reachable world, the change sent has been merged ... *)
-  Theorem C02_never_sent_before_merged_partial : forall (w : world) l evs t m term i r a,
-    (forall w' : world, reach w' -> commit_guard w') -> reach w ->
-    devlog (step w l) = devlog w ++ evs -> In (DevSet t m term (Some i) r a) evs ->
+  (* the device is never sent a change that has not been merged into the stored configuration *)
+  Theorem C02_never_sent_before_merged : forall (w : world) l evs t m term i r a,
+    reach w -> devlog (step w l) = devlog w ++ evs -> In (DevSet t m term (Some i) r a) evs ->
     exists (P : prop) (C : config), props w !! (t, i) = Some P /\ cfgs w !! t = Some C /\
       p_commit P = Some Done /\ i <= c_committed C.
-  Proof. exact (inst never_sent_before_merged_partial_guard). Qed.
+  Proof. exact (inst never_sent_before_merged). Qed.
 
-  (* ... and Applied.Index never passes Committed.Index *)
-  Theorem C02_applied_le_committed_partial :
-    (forall w' : world, reach w' -> commit_guard w') ->
-    forall (w : world) t (C : config), reach w -> cfgs w !! t = Some C -> c_applied C <= c_committed C.
-  Proof. exact (inst applied_le_committed_of_guard). Qed.
-
-  (* per-world form: it is enough that every proposal of THIS world whose Commit phase is done has been merged *)
-  Theorem C02_never_sent_before_merged_partial_world : forall (w : world) l evs t m term i r a,
-    reach w ->
-    (forall t i (P : prop) (C : config), props w !! (t, i) = Some P -> cfgs w !! t = Some C ->
-       p_commit P = Some Done -> i <= c_committed C) ->
-    devlog (step w l) = devlog w ++ evs -> In (DevSet t m term (Some i) r a) evs ->
+  (* a change is sent when Applied.Index is EXACTLY the PrevIndex of its proposal *)
+  Theorem C02_sent_from_prev : forall (w : world) l evs t m term i r a,
+    reach w -> devlog (step w l) = devlog w ++ evs -> In (DevSet t m term (Some i) r a) evs ->
     exists (P : prop) (C : config), props w !! (t, i) = Some P /\ cfgs w !! t = Some C /\
-      p_commit P = Some Done /\ i <= c_committed C.
-  Proof. exact (inst never_sent_before_merged_partial). Qed.
+      p_apply P = Some Doing /\ c_applied C = p_prev P /\ c_applied C < i.
+  Proof. exact (inst sent_from_prev). Qed.
+
+  (* from a reachable world Applied.Index moves from exactly the PrevIndex of the moving proposal to its index *)
+  Theorem C02_applied_moves_from_prev : forall (w : world) l t,
+    reach w -> applied_of (step w l) t <> applied_of w t ->
+    exists i k o (P : prop), l = LRec (CtlProp (t, i)) k o /\ props w !! (t, i) = Some P /\
+      applied_of (step w l) t = i /\ applied_of w t = p_prev P /\ applied_of w t < i /\
+      (p_apply P = Some Doing \/ p_apply P = Some Failed \/ (p_apply P = None /\ p_abort P = Some Doing)).
+  Proof. exact (inst applied_moves_from_prev). Qed.
+
+  (* the chain invariant, as far as the property needs it *)
+  Theorem C02_open_is_last : forall (w : world) t i j (P Q : prop),
+    reach w -> props w !! (t, i) = Some P -> props w !! (t, j) = Some Q -> i < j -> p_init P = Some Done.
+  Proof. exact (inst open_is_last). Qed.
+
+  Theorem C02_unique_prev : forall (w : world) t i j (P Q : prop),
+    reach w -> props w !! (t, i) = Some P -> props w !! (t, j) = Some Q ->
+    p_init P = Some Done -> p_init Q = Some Done -> p_prev P = p_prev Q -> i = j.
+  Proof. exact (inst unique_prev). Qed.
+
+  Theorem C02_commit_guard : forall (w : world) t i (P : prop) (C : config),
+    reach w -> props w !! (t, i) = Some P -> cfgs w !! t = Some C ->
+    p_commit P = Some Doing -> p_abort P = None -> p_apply P = None ->
+    c_committed C = p_prev P \/ i <= c_committed C.
+  Proof. exact (fun w t i P C Hr => inst commit_guard_reach w Hr t i P C). Qed.
+
+  Theorem C02_cursors_ordered : forall (w : world) t (C : config),
+    reach w -> cfgs w !! t = Some C -> c_applied C <= c_committed C /\ c_committed C <= c_proposed C.
+  Proof. exact (inst cursors_ordered). Qed.
 End C02.
 Print Assumptions C02_committed_moves_by_successor.
 Print Assumptions C02_applied_moves_by_successor.
@@ -143,6 +160,10 @@ Print Assumptions C02_sent_in_order.
 Print Assumptions C02_links_ordered.
 Print Assumptions C02_cursors_monotone.
 Print Assumptions C02_sent_only_after_commit_phase.
-Print Assumptions C02_never_sent_before_merged_partial.
-Print Assumptions C02_applied_le_committed_partial.
-Print Assumptions C02_never_sent_before_merged_partial_world.
+Print Assumptions C02_never_sent_before_merged.
+Print Assumptions C02_sent_from_prev.
+Print Assumptions C02_applied_moves_from_prev.
+Print Assumptions C02_open_is_last.
+Print Assumptions C02_unique_prev.
+Print Assumptions C02_commit_guard.
+Print Assumptions C02_cursors_ordered.
